@@ -4,6 +4,7 @@ import (
 	"errors"
 	"fmt"
 	"io"
+	"os"
 
 	"github.com/openacid/low/iohelper"
 
@@ -35,8 +36,11 @@ type c18Case struct {
 	Cursor int64  `json:"cursor,omitempty"` // positioned by Seek(Cursor, SeekStart) first
 	// Bystander: a second SectionWriter (other base, other underlying writer) is written to and
 	// seeked between the steps; it must not influence the writer under test
-	Bystander bool    `json:"bystander,omitempty"`
-	Ops       []c18Op `json:"ops"`
+	Bystander bool `json:"bystander,omitempty"`
+	// Under selects the underlying io.WriterAt: "" = the scripted writer, "stacked" = another
+	// SectionWriter (offset 2, length 100) over it, "file" = an *os.File
+	Under string  `json:"underlying,omitempty"`
+	Ops   []c18Op `json:"ops"`
 }
 
 func init() {
@@ -44,7 +48,7 @@ func init() {
 		ID:    "C18",
 		Level: "model_checking",
 		Rule: "E2+E3: for every section (base in {0,5,2^40}, n in 0..4) a breadth-first search over the cursor states reachable inside the window [0, n+6] (observed through Seek(0, SeekCurrent)); from EVERY state EVERY operation of the alphabet {Write(len 0..6), WriteAt(len 0..6, off in [-1,n+1]), Seek(offset in [-7,n+2], whence in {-1,0,1,2,3})} × EVERY answer of the scripted underlying WriterAt {everything; k<len bytes with an error; k<len bytes without an error, k in {0,1,2}} is executed on a real SectionWriter positioned there by real calls. " +
-			"Independently every operation sequence of depth ≤3 over a reduced alphabet runs on one object without any state merging (guards against hidden state) - alone and once more with a second SectionWriter over another underlying writer used between the steps (objects must not share state) -, and AtToWriter(w, off in {0,5}) runs every sequence of ≤3 Writes × answers. Oracle: the statement's cursor model — compared are return values (count, error class: nil / ErrShortWrite / the underlying error / some error for rejected Seeks), the exact list of non-empty (offset, bytes) calls the underlying writer received, containment in [base, base+n), the cursor afterwards and Size(). Non-trivial: transitions in which bytes reach the underlying writer or the cursor moves.",
+			"Independently every operation sequence of depth ≤3 over a reduced alphabet runs on one object without any state merging (guards against hidden state) - alone and once more with a second SectionWriter over another underlying writer used between the steps (objects must not share state), once more over a SectionWriter stacked on the scripted writer and (fault-free sequences of ≤2 operations) over an *os.File whose content is read back -, and AtToWriter(w, off in {0,5}) runs every sequence of ≤3 Writes × answers. Oracle: the statement's cursor model — compared are return values (count, error class: nil / ErrShortWrite / the underlying error / some error for rejected Seeks), the exact list of non-empty (offset, bytes) calls the underlying writer received, containment in [base, base+n), the cursor afterwards and Size(). Non-trivial: transitions in which bytes reach the underlying writer or the cursor moves.",
 		Assumptions: []string{
 			"cursors beyond the window n+6 are executed once (as successors) but not expanded",
 			"zero-length writes: whether the underlying writer is called at all is not fixed by the statement, so empty calls are ignored in the comparison and only the benign answer is scripted for them",
@@ -208,11 +212,28 @@ func c18Exec(cs c18Case) (got, want string, moved bool) {
 	m := &c18Model{base: cs.Base, n: cs.N}
 	var w io.Writer
 	var sw *iohelper.SectionWriter
+	var under io.WriterAt = u
+	var file *os.File
+	switch cs.Under {
+	case "stacked":
+		under = iohelper.NewSectionWriter(u, 2, 100)
+	case "file":
+		f, err := os.CreateTemp("", "verif-c18-*")
+		if err != nil {
+			panic("harness: cannot create a temporary file: " + err.Error())
+		}
+		file = f
+		under = f
+		defer func() {
+			f.Close()
+			os.Remove(f.Name())
+		}()
+	}
 	if cs.Kind == "attowriter" {
-		w = iohelper.AtToWriter(u, cs.Base)
+		w = iohelper.AtToWriter(under, cs.Base)
 		m.n = 1 << 40 // no practical end
 	} else {
-		sw = iohelper.NewSectionWriter(u, cs.Base, cs.N)
+		sw = iohelper.NewSectionWriter(under, cs.Base, cs.N)
 		w = sw
 		if cs.Cursor != 0 {
 			pos, err := sw.Seek(cs.Cursor, io.SeekStart)
@@ -262,14 +283,48 @@ func c18Exec(cs c18Case) (got, want string, moved bool) {
 			moved = true
 		}
 	}
-	got += fmt.Sprintf("underlying:%v", u.calls)
-	want += fmt.Sprintf("underlying:%v", m.calls)
+	switch cs.Under {
+	case "stacked":
+		// the scripted writer sits 2 bytes further down
+		shifted := make([]c18Call, len(m.calls))
+		for i, cl := range m.calls {
+			shifted[i] = cl
+			if cl.Off < 0 {
+				shifted[i].Off = cl.Off - 2
+			} else {
+				shifted[i].Off = cl.Off + 2
+			}
+		}
+		got += fmt.Sprintf("underlying:%v", u.calls)
+		want += fmt.Sprintf("underlying:%v", shifted)
+	case "file":
+		// the file's content is the ground truth
+		exp := []byte{}
+		for _, cl := range m.calls {
+			if cl.Off < 0 {
+				continue
+			}
+			for int64(len(exp)) < cl.Off+int64(len(cl.Data)) {
+				exp = append(exp, 0)
+			}
+			copy(exp[cl.Off:], cl.Data)
+		}
+		have, _ := os.ReadFile(file.Name())
+		got += fmt.Sprintf("file:%q", have)
+		want += fmt.Sprintf("file:%q", exp)
+	default:
+		got += fmt.Sprintf("underlying:%v", u.calls)
+		want += fmt.Sprintf("underlying:%v", m.calls)
+	}
 	// containment, stated separately so that a model bug cannot hide it
 	for _, c := range u.calls {
 		off, l := c.Off, int64(len(c.Data))
 		if off < 0 { // attempt record
 			off = -off - 1
 			fmt.Sscanf(c.Data, "attempt:%d", &l)
+		}
+		if cs.Under == "stacked" {
+			off -= 2 // the scripted writer sits 2 bytes below the stacked section
 		}
 		if cs.Kind == "section" && (off < cs.Base || off+l > cs.Base+cs.N) {
 			got += fmt.Sprintf(" OUTSIDE-SECTION[%d,%d)", off, off+l)
@@ -404,6 +459,26 @@ func c18Run(c *mc.Ctx) {
 			cs.Bystander = true
 			if g2, _, _ := c18Exec(cs); g2 != got {
 				c.Fail(1<<51|int64(ci)<<40|seqs, "section", "section/bystander", cs, g2, want)
+			}
+			cs.Bystander = false
+			// other dynamic types of the underlying io.WriterAt
+			if cf.base < 50 {
+				cs.Under = "stacked"
+				if g3, w3, _ := c18Exec(cs); g3 != w3 {
+					c.Fail(1<<52|int64(ci)<<40|seqs, "section", "section/stacked", cs, g3, w3)
+				}
+				c.Add("stacked_sequences", 1)
+				full := true
+				for _, o := range h {
+					full = full && o.Ans.Full
+				}
+				if full && len(h) <= 2 {
+					cs.Under = "file"
+					if g4, w4, _ := c18Exec(cs); g4 != w4 {
+						c.Fail(1<<53|int64(ci)<<40|seqs, "section", "section/file", cs, g4, w4)
+					}
+					c.Add("file_sequences", 1)
+				}
 			}
 		}
 		for _, a := range red {
